@@ -18,7 +18,8 @@ What IS proved, for all integer times, all data sets, all valuations of the non-
     exactly as DuckDB does, with `<=`/BETWEEN upper bounds not on an hour boundary, and the data lies inside the
     bounds the pruner assumes (≥ minPartitionDate; ≥ 2020-01-01 when no start bound is found; < now+24 h when
     no end bound is found);
-  * C18_cached_partial — a cached plan stays exact as long as no NEW partition appeared since it was cached;
+  * C18_cached_partial — the same statement issued again stays exact if the post-compaction hook ran (regenerated
+    facts: InvalidateCaches clears the transform cache and the pruner caches) or no NEW partition appeared;
   * one `…_witness` per excluded class (OR, NOT, `<=` on the hour, BETWEEN upper bound on the hour, end-only with
     data before the default start, start-only with data after now+24 h, column whose name merely ends in `time`,
     subquery, join, UNION, plan cached across a new partition, NOW() − INTERVAL 'n months' at month ends,
@@ -75,7 +76,8 @@ theorem C18_loop_tied :
 /-- query.go prunes every table reference with the text of the whole statement; nothing on the ingest/flush path
     invalidates the pruner / transform caches (only compaction completion and the cluster cache-invalidate do). -/
 theorem C18_call_sites_tied :
-    prunesWithWholeStatement = true ∧ optimizeSqlArgs.length = 2 ∧ ingestInvalidations = 0 := by decide
+    prunesWithWholeStatement = true ∧ optimizeSqlArgs.length = 2 ∧ ingestInvalidations = 0 ∧
+    compactionCallsInvalidate = true := by decide
 
 /-! ## (1) generated paths -/
 
@@ -366,21 +368,31 @@ theorem C18_partial (now : Int) (σ : Valuation) (p : Pred) (ds : Dataset)
       exact read_exact hwp hg (fun f hf => ⟨f, hf, rfl⟩)
         (fun row hrow hev => range_sound hconj hdata hrow hev hx)
 
-/-- a plan cached when the data set was `ds0` is still exact for `ds` if `ds` has no partition `ds0` lacked
-    (new files inside already-known partitions are found by the globs at execution time). -/
-theorem C18_cached_partial (now : Int) (σ : Valuation) (p : Pred) (ds0 ds : Dataset)
+/-- the same statement issued again inside the cache TTL returns the full result provided that EITHER the
+    post-compaction hook `InvalidateCaches` ran since the plan was cached (compaction replaces hour files by a NEW
+    day-level partition; the regenerated facts say the hook clears the transform cache and the pruner caches, so the
+    plan is recomputed) OR the data set has no partition the cached plan's data set lacked (new files inside
+    already-known partitions are found by the globs at execution time). -/
+theorem C18_cached_partial (now : Int) (σ : Valuation) (p : Pred) (ds0 ds : Dataset) (invalidated : Bool)
     (hwp : WellPlaced ds) (hconj : p.safeConj now = true) (hdata : dataOK now p.text ds = true)
-    (hnew : ∀ f ∈ ds, ∃ f0 ∈ ds0, f0.part = f.part) :
-    runCached now σ p ds0 ds = runFull now σ p ds := by
-  unfold runCached runFull
-  cases hx : extract now p.text with
-  | none => rfl
-  | some se =>
-    obtain ⟨s, e⟩ := se
-    cases hg : generatePaths s e with
-    | none => simp [planFor, hg, readWith]
-    | some ps =>
-      exact read_exact hwp hg hnew (fun row hrow hev => range_sound hconj hdata hrow hev hx)
+    (hnew : invalidated = false → ∀ f ∈ ds, ∃ f0 ∈ ds0, f0.part = f.part) :
+    runCachedI now σ p ds0 ds invalidated = runFull now σ p ds := by
+  have hsurv : survivesInvalidate = false := by decide
+  cases invalidated with
+  | true =>
+    simp only [runCachedI, hsurv, Bool.not_false, Bool.and_self, if_true]
+    exact C18_partial now σ p ds hwp hconj hdata
+  | false =>
+    simp only [runCachedI, Bool.false_and, Bool.false_eq_true, if_false]
+    unfold runCached runFull
+    cases hx : extract now p.text with
+    | none => rfl
+    | some se =>
+      obtain ⟨s, e⟩ := se
+      cases hg : generatePaths s e with
+      | none => simp [planFor, hg, readWith]
+      | some ps =>
+        exact read_exact hwp hg (hnew rfl) (fun row hrow hev => range_sound hconj hdata hrow hev hx)
 
 /-! ### concrete material for the non-vacuity example and the witnesses
     2024-03-15 10:00:00Z = 1710496800 s; hour index 475138; day index 19797. -/
@@ -412,7 +424,27 @@ example :
     let p := Pred.and (timeCmp .ge (litAt 10 0)) (timeCmp .lt (litAt 11 30))
     let ds1 : Dataset := DS0 ++ [hourFile 10 [45]]
     p.safeConj NOW0 = true ∧ dataOK NOW0 p.text ds1 = true ∧ WellPlaced ds1 ∧
-    (∀ f ∈ ds1, ∃ f0 ∈ DS0, f0.part = f.part) ∧ (runCached NOW0 σ0 p DS0 ds1).length = 4 := by decide
+    (∀ f ∈ ds1, ∃ f0 ∈ DS0, f0.part = f.part) ∧ (runCachedI NOW0 σ0 p DS0 ds1 false).length = 4 := by decide
+
+/-- hours 10 and 11 (two files each) before, and after a daily compaction that leaves the first ("late raw") file
+    of each hour in place and moves the other rows into the new day-level file of 2024-03-15. -/
+def DSraw : Dataset := [hourFile 10 [0], hourFile 10 [30], hourFile 11 [0], hourFile 11 [20]]
+def DScompacted : Dataset :=
+  [hourFile 10 [0], hourFile 11 [0], { part := .day 19797, rows := [mkRow (tAt 10 30), mkRow (tAt 11 20)] }]
+
+/-- non-vacuity of the compaction branch of C18_cached_partial (invalidated = true). -/
+example :
+    let p := Pred.and (timeCmp .ge (litAt 10 0)) (timeCmp .lt (litAt 12 0))
+    p.safeConj NOW0 = true ∧ dataOK NOW0 p.text DScompacted = true ∧ WellPlaced DScompacted ∧
+    (runCachedI NOW0 σ0 p DSraw DScompacted true).length = 4 := by decide
+
+/-- why the hook must clear the cached plan: reusing the pre-compaction plan (hour globs only) after the
+    compaction loses the rows that moved into the day-level file — and with empty hour directories the listed
+    globs match nothing (DuckDB: "No files found"). -/
+theorem C18_compaction_needs_invalidate_witness :
+    let p := Pred.and (timeCmp .ge (litAt 10 0)) (timeCmp .lt (litAt 12 0))
+    runCached NOW0 σ0 p DSraw DScompacted ≠ runFull NOW0 σ0 p DScompacted ∧
+    planBroken (planFor (extract NOW0 p.text) DSraw) [{ part := .day 19797, rows := [] }] = true := by decide
 
 /-! ## (3) one counterexample per excluded class (the full statement instantiated, refuted by evaluation) -/
 
